@@ -6,7 +6,7 @@
 From Coq Require Import List NArith Bool Arith Lia Permutation.
 Import ListNotations.
 From BioVerif Require Import Model.Pipeline Spec.PipelineSpec.
-From BioVerif Require Model.AdjRIBIn Model.LocRIBClients Model.AdjRIBOut Spec.AdjRIBInSpec Spec.LocRIBClientsSpec
+From BioVerif Require Model.AdjRIBIn Model.LocRIBClients Model.AdjRIBOut Model.UpdateSender Spec.AdjRIBInSpec Spec.LocRIBClientsSpec
   Proofs.AdjRIBInProofs Proofs.LocRIBClientsProofs.
 
 (* ------------------------------------------------------------------ removing one occurrence *)
@@ -177,6 +177,15 @@ Lemma ckey_lift_src : forall ip bid ib q ip' bid' ib' q',
 Proof.
   intros. assert (E : src_of (ckey (lift ip bid ib q)) = src_of (ckey (lift ip' bid' ib' q'))) by congruence.
   rewrite !src_ckey, !src_lift in E. now inversion E.
+Qed.
+
+Lemma upfx_eqb : forall p q, UpdateSender.pfx_eqb (upfx p) (upfx q) = N.eqb p q.
+Proof.
+  intros p q. unfold UpdateSender.pfx_eqb, upfx. cbn [UpdateSender.x_addr UpdateSender.x_len].
+  destruct (N.eqb_spec p q) as [->|NE]; [now rewrite !N.eqb_refl|].
+  destruct (N.eqb_spec (p / 64) (q / 64)) as [E1|]; [|reflexivity].
+  destruct (N.eqb_spec (p mod 64) (q mod 64)) as [E2|]; [|reflexivity].
+  exfalso. apply NE. rewrite (N.div_mod p 64), (N.div_mod q 64) by discriminate. now rewrite E1, E2.
 Qed.
 
 (* ------------------------------------------------------------------ the Loc-RIB as a bag *)
